@@ -1357,3 +1357,98 @@ Proof.
   - right. eexists. split; [reflexivity|]. split; [left; reflexivity|reflexivity].
   - right. eexists. split; [reflexivity|]. split; [right; reflexivity|reflexivity].
 Qed.
+
+(* ------------------------------------------------------------------ prefix reads return every key once *)
+Lemma nodup_app {A} : forall (a b : list A), NoDup a -> NoDup b -> (forall x, In x a -> ~ In x b) -> NoDup (a ++ b).
+Proof.
+  induction a as [|x a IH]; intros b Ha Hb Hd; cbn; auto.
+  inversion Ha; subst. constructor.
+  - rewrite in_app_iff. intros [H|H]; [auto|]. apply (Hd x); cbn; auto.
+  - apply IH; auto. intros y Hy. apply Hd. cbn. auto.
+Qed.
+Lemma nodup_map_inj_on {A B} : forall (f : A -> B) (l : list A),
+  (forall x y, In x l -> In y l -> f x = f y -> x = y) -> NoDup l -> NoDup (map f l).
+Proof.
+  intros f l. induction l as [|x l IH]; intros Hinj Hn; cbn; [constructor|].
+  inversion Hn; subst. constructor.
+  - intros Hin. apply in_map_iff in Hin. destruct Hin as [y [Hy Hin]].
+    assert (y = x) by (apply Hinj; cbn; auto). subst. auto.
+  - apply IH; auto. intros a b Ha Hb. apply Hinj; cbn; auto.
+Qed.
+Lemma gbp_fst_snd : forall ob pl ents,
+  map fst (fst (gbp_committed ob pl ents)) = map (skipn pl) (snd (gbp_committed ob pl ents)).
+Proof.
+  intros ob pl. induction ents as [|[key value] ents IH]; cbn [gbp_committed]; [reflexivity|].
+  destruct (gbp_committed ob pl ents) as [es set]. cbn [fst snd] in *.
+  destruct (merged_value ob key value); cbn [fst snd]; [rewrite !map_cons; cbn [fst]; f_equal; exact IH|exact IH].
+Qed.
+Lemma gbp_set_nodup : forall ob pl ents, NoDup (map fst ents) ->
+  NoDup (snd (gbp_committed ob pl ents)) /\ (forall k, In k (snd (gbp_committed ob pl ents)) -> In k (map fst ents)).
+Proof.
+  intros ob pl. induction ents as [|[key value] ents IH]; cbn [gbp_committed map fst]; intros Hn.
+  - split; [constructor|auto].
+  - inversion Hn as [|? ? Hnot Hn']; subst. destruct (IH Hn') as [H1 H2].
+    destruct (gbp_committed ob pl ents) as [es set]. cbn [fst snd] in *.
+    destruct (merged_value ob key value); cbn [fst snd].
+    + split; [constructor; auto|]. intros k [Hk|Hk]; cbn; auto.
+    + split; auto. intros k Hk. cbn. auto.
+Qed.
+Lemma net_puts_keys_nodup : forall b ip, keys_sorted (b_puts b) -> NoDup (map fst (net_puts_by_prefix b ip)).
+Proof.
+  intros b ip Hs. unfold net_puts_by_prefix. apply sorted_nodup_keys in Hs.
+  assert (G : forall l : amap (bytes * Z), NoDup (map fst l) ->
+     NoDup (map fst (flat_map (fun e : bytes * (bytes * Z) => let '(k, (d, sp)) := e in
+        if has_prefix ip k then match m_get k (b_dels b) with None => [(k, d)] | Some sd => if sd <? sp then [(k, d)] else [] end else []) l))
+     /\ forall k, In k (map fst (flat_map (fun e : bytes * (bytes * Z) => let '(k, (d, sp)) := e in
+        if has_prefix ip k then match m_get k (b_dels b) with None => [(k, d)] | Some sd => if sd <? sp then [(k, d)] else [] end else []) l)) -> In k (map fst l)).
+  { induction l as [|[k [d sp]] l IH]; cbn [flat_map map fst]; intros Hn; [split; [constructor|auto]|].
+    inversion Hn as [|? ? Hnot Hn']; subst. destruct (IH Hn') as [H1 H2].
+    set (g := if has_prefix ip k then match m_get k (b_dels b) with None => [(k, d)] | Some sd => if sd <? sp then [(k, d)] else [] end else []).
+    assert (Hg : g = [] \/ g = [(k, d)]).
+    { unfold g. destruct (has_prefix ip k); auto. destruct (m_get k (b_dels b)) as [sd|]; auto. destruct (sd <? sp); auto. }
+    destruct Hg as [Hg|Hg]; rewrite Hg; cbn [app map fst].
+    - split; [exact H1|]. intros k0 Hk. right. apply H2. exact Hk.
+    - split; [constructor; [intros Hin; apply Hnot; apply H2; exact Hin|exact H1]|].
+      intros k0 [Hk|Hk]; [left; exact Hk|right; apply H2; exact Hk]. }
+  apply G. exact Hs.
+Qed.
+
+Lemma get_by_prefix_nodup : forall s b h prefix, keys_sorted s -> keys_bytes s -> batch_wf b ->
+  bytes_ok (h_path h) -> bytes_ok prefix ->
+  NoDup (map fst (get_by_prefix s (Some b) h prefix)).
+Proof.
+  intros s b h prefix Hs Hkb [Hb Hps] Hp Hpre. unfold get_by_prefix.
+  set (path := h_path h) in *. set (ip := inner_key path prefix). remember (S (length path)) as pl eqn:Epl.
+  assert (Hip : bytes_ok ip).
+  { unfold ip, inner_key. apply Forall_app. split; auto. constructor; [unfold byte_ok, SEP; lia|auto]. }
+  set (ents := prefix_entries s ip).
+  assert (Hents : NoDup (map fst ents)).
+  { apply sorted_nodup_keys. unfold ents, prefix_entries. apply range_entries_sorted. exact Hs. }
+  pose proof (gbp_fst_snd (Some b) pl ents) as F. pose proof (gbp_set_nodup (Some b) pl ents Hents) as [N1 N2].
+  destruct (gbp_committed (Some b) pl ents) as [es set] eqn:E. cbn [fst snd] in *.
+  set (np := net_puts_by_prefix b ip).
+  set (L2 := filter (fun k => negb (existsb (beqb k) set)) (map fst np)).
+  assert (Hbs : map fst (flat_map (fun e : bytes * bytes => if existsb (beqb (fst e)) set then [] else [(skipn pl (fst e), snd e)]) np)
+                = map (skipn pl) L2).
+  { unfold L2. clear. induction np as [|[k d] np IH]; cbn [flat_map map filter fst snd]; [reflexivity|].
+    destruct (existsb (beqb k) set); cbn [negb app map fst]; congruence. }
+  match goal with |- NoDup ?l => replace l with (map (skipn pl) (set ++ L2)) end;
+    [|rewrite !map_app; f_equal; [symmetry; exact F|symmetry; exact Hbs]].
+  apply nodup_map_inj_on.
+  - (* stripping the bucket prefix is injective on keys that carry it *)
+    assert (Hpre_all : forall x, In x (set ++ L2) -> exists k, x = inner_key path k).
+    { intros x Hx. apply in_app_iff in Hx. destruct Hx as [Hx|Hx].
+      - apply N2 in Hx. apply in_map_iff in Hx. destruct Hx as [[key value] [Ek Hin]]. cbn in Ek. subst key.
+        unfold ents, prefix_entries, range_entries in Hin. apply filter_In in Hin. destruct Hin as [Hin Hr]. cbn [fst] in Hr.
+        assert (Hbk : bytes_ok x) by (unfold keys_bytes in Hkb; rewrite Forall_forall in Hkb; apply (Hkb _ Hin)).
+        rewrite bytes_prefix_range in Hr by assumption. apply has_prefix_inner in Hr. destruct Hr as [k [Ek _]]. eauto.
+      - unfold L2 in Hx. apply filter_In in Hx. destruct Hx as [Hx _]. apply in_map_iff in Hx.
+        destruct Hx as [[key d] [Ek Hin]]. cbn in Ek. subst key. apply net_puts_in in Hin; [|split; auto].
+        destruct Hin as [Hr _]. apply has_prefix_inner in Hr. destruct Hr as [k [Ek _]]. eauto. }
+    intros x y Hx Hy Hxy. destruct (Hpre_all x Hx) as [kx Ex]. destruct (Hpre_all y Hy) as [ky Ey]. subst x y.
+    rewrite Epl, !skipn_inner_key in Hxy. congruence.
+  - apply nodup_app; auto.
+    + unfold L2. apply NoDup_filter. apply net_puts_keys_nodup. exact Hps.
+    + intros x Hx Hx2. unfold L2 in Hx2. apply filter_In in Hx2. destruct Hx2 as [_ Hneg].
+      apply negb_true_iff in Hneg. apply existsb_beqb_in in Hx. congruence.
+Qed.
